@@ -35,7 +35,7 @@ for p in sorted(glob.glob('tools/refactors/*.patch')):
     d = desc(p).replace('behaviour-preserving refactor — every check must stay silent: ', '')
     out.append(f"| {n} | {d} | {'not run' if not r else (' '.join(r['caught']) or 'none (all 18 checks exit 0)')} |")
 out.append('\n### 10.7 Independent seeded changes (`seeded/<id>/`)\n')
-out.append('Produced by sub-agents that were given one property\'s text and a scratch worktree only (round 1: two changes per property, ids `Cxx-A/B`;\nround 2: three per property, ids `Cxx-A2/B2/C2`, told which mechanisms had already been tried and asked for harder ones; C18 has no round 2).\nRound 1 was run against all 18 checks, round 2 against the property\'s own check and three neighbours; all at a quarter of the quick budgets. Every change was confirmed\nwith `tools/confirm_seed.sh` (suite 30/30 with the patch, demonstration fails with it and passes without) before it was kept.\n"own check" = reported by the check of the property the change was written against.\n')
+out.append('Produced by sub-agents that were given one property\'s text and a scratch worktree only (round 1: two changes per property, ids `Cxx-A/B`;\nround 2: three per property, ids `Cxx-A2/B2/C2`, told which mechanisms had already been tried and asked for harder ones).\nRound 1 was run against all 18 checks, round 2 against the property\'s own check and three neighbours; all at a quarter of the quick budgets. Every change was confirmed\nwith `tools/confirm_seed.sh` (suite 30/30 with the patch, demonstration fails with it and passes without) before it was kept.\n"own check" = reported by the check of the property the change was written against.\n')
 out.append('| id | needs, in order to manifest | own check | all checks that report it |\n|---|---|---|---|')
 metas = sorted(glob.glob('seeded/*/meta.json'))
 n_own = 0
@@ -47,8 +47,9 @@ for mf in metas:
     json.dump(m, open(mf, 'w'), indent=1)
     out.append(f"| {n} | {m['needs_to_manifest']} | {'yes' if ownc else 'no'} | {' '.join(caught) or '**none**'} |")
 out.append(f"\n{len(metas)} seeded changes, all reported by at least one check, {n_own} by the check of their own property. "
-           "The exception (C05-B: receive hooks accept coins forwarded by a token-shaped contract) cannot manifest in C05's honest-token worlds by construction; "
-           "it is reported by C19 (`coins_kept`) and C18 (`victim_altered … +coins`, a signature outside the known findings).\n")
+           "The exceptions: C05-B (receive hooks accept coins forwarded by a token-shaped contract) cannot manifest in C05's honest-token worlds by construction; "
+           "it is reported by C19 (`coins_kept`) and C18 (`victim_altered … +coins`, a signature outside the known findings). C04-B (id re-use through the CW721 bucket path, then a purchase that overwrites the seller's bucket) "
+           "was reported by C01 / C03 / C07 / C09 in this matrix; rule `C04.foreign_bucket_destroyed` was added afterwards (C18-B2 / C18-C2 exercise it).\n")
 out.append('Changes the first versions of the checks missed, and what was strengthened because of them:\n')
 out.append('''* C13-A (sub-second early cycle) — the model judged elapsed time in whole seconds; refusal is now judged on nanoseconds since the last switch (§10.1).
 * C12-A (same NFT twice with another token in between) — malformed asks now carry duplicates at any position in lists of 2–4 entries.
